@@ -313,7 +313,8 @@ class Fn(object):
             return '?'
         k = v['k']
         if 'v' in v and k not in ('DeclRefExpr', 'MemberExpr', 'CallExpr', 'CXXMemberCallExpr') or \
-                ('v' in v and v.get('rk') == 'enumerator'):
+                ('v' in v and v.get('rk') == 'enumerator') or \
+                ('v' in v and k == 'DeclRefExpr' and v.get('const') and v.get('rk') in ('global', 'staticmember')):
             return '#%d' % v['v']
         if depth > 12:
             return '...'
@@ -326,6 +327,8 @@ class Fn(object):
             return (self.key(ch[0], depth + 1) if ch else '?') + '.' + v.get('name', '?')
         if k == 'CXXThisExpr':
             return 'this'
+        if k == 'CXXOperatorCallExpr' and v.get('op') == '[]' and len(v.get('args', [])) == 2:
+            return '%s[%s]' % (self.key(v['args'][0], depth + 1), self.key(v['args'][1], depth + 1))
         if k in ('CallExpr', 'CXXMemberCallExpr', 'CXXOperatorCallExpr'):
             args = ','.join(self.key(a, depth + 1) for a in v.get('args', []))
             cal = v.get('callee') or self.key(v.get('fn'), depth + 1)
